@@ -623,6 +623,12 @@ def edit_cases(arg):
         except Exception as ex:
             out.append({'src': src, 'edit': edit, 'op': op, 'field': pkind + '.' + fld, 'violations': [], 'changed': False,
                         'outcome': 'harness:' + type(ex).__name__ + ':' + str(ex)[:80], 'bad_spans': []})
+    import hashlib
+    for it in out:      # keep the parent process small: full texts only for items that will be reported
+        it['key'] = hashlib.blake2b((it['src'] + repr(it['edit'])).encode(), digest_size=8).hexdigest()
+        if not it['violations'] and not it.get('bad_spans'):
+            it.pop('after', None)
+            it['src'] = it['src'][:300]
     return out
 
 
@@ -642,4 +648,199 @@ def classify(it):
     for v in it['violations']:
         out.append((f'C04|{it["op"]}|{it["field"]}|{v["cls"]}', v['what'],
                     {'src': it['src'], 'edit': it['edit'], 'after': it.get('after'), 'detail': v.get('detail')}))
+    return out
+
+
+# ---------------------------------------------------------------------------------------------------------------------
+# two-step histories: replace an expression by a call, then edit a child of the NEW node.  The second edit is addressed
+# through the positions the first edit gave to the new nodes, so wrong placement (e.g. character instead of byte columns
+# after multi-byte text on the line) makes it overwrite text that is not part of the edited element.
+
+KW_COMPOUND = ('if', 'for', 'while', 'def', 'class', 'with', 'try', 'match', 'async', '@', 'elif', 'else', 'except', 'finally',
+               'case')
+MB_PREFIXES = ['ü = "é"; ', 'ñ("日本", "héllo wörld"); ', '名前 = "ß"; ']
+STEP1 = [('nf(p1, p2)', 'nf(zz, p2)'), ('nf(p1,\n   p2)', 'nf(zz,\n   p2)'), ('ñf("é", p2)', 'ñf(zz, p2)')]
+
+
+def expr_targets(tree):
+    """[(path, parent kind, field, node)] Load-context expressions that a call may replace one for one"""
+    out = []
+
+    def go(n, path):
+        for name, val in ast.iter_fields(n):
+            items = [(i, c) for i, c in enumerate(val)] if isinstance(val, list) else [(None, val)]
+            for i, c in items:
+                if not isinstance(c, ast.AST):
+                    continue
+                p2 = path + [(name, i)]
+                if isinstance(c, ast.expr) and isinstance(getattr(c, 'ctx', ast.Load()), ast.Load) and \
+                        not isinstance(c, (ast.Starred, ast.Slice, ast.JoinedStr, ast.FormattedValue, ast.Yield, ast.YieldFrom, ast.Await)) and \
+                        (type(n).__name__, name) in (('Assign', 'value'), ('AugAssign', 'value'), ('Return', 'value'), ('Expr', 'value'),
+                                                     ('Call', 'args'), ('List', 'elts'), ('Tuple', 'elts'), ('Set', 'elts'),
+                                                     ('BinOp', 'left'), ('BinOp', 'right'), ('Compare', 'left'), ('keyword', 'value'),
+                                                     ('Dict', 'values'), ('Subscript', 'slice'), ('IfExp', 'body'), ('AnnAssign', 'value')):
+                    out.append((p2, type(n).__name__, name, c))
+                if not isinstance(c, (ast.JoinedStr, ast.FormattedValue)):
+                    go(c, p2)
+
+    go(tree, [])
+    return out
+
+
+def add_multibyte_prefix(src, rng):
+    """put a simple statement with non-ASCII text in front of some simple statements ON THE SAME LINE (`é = "ñ"; stmt`)"""
+    try:
+        ts = toks(src)
+    except Exception:
+        return src
+    lines = src.split('\n')
+    starts = sorted({t.end[0] for t in ts if t.type == tokenize.NEWLINE} | {0})
+    cand = [i for i in starts if i < len(lines) and lines[i].strip() and not lines[i].lstrip().startswith(KW_COMPOUND + ('#',))]
+    rng.shuffle(cand)
+    cur = src
+    done = 0
+    for i in cand:
+        ls = cur.split('\n')
+        ind = ls[i][:len(ls[i]) - len(ls[i].lstrip())]
+        new = '\n'.join(ls[:i] + [ind + rng.choice(MB_PREFIXES) + ls[i][len(ind):]] + ls[i + 1:])
+        try:
+            ast.parse(new)
+        except Exception:
+            continue
+        cur = new
+        done += 1
+        if done >= 3:
+            break
+    return cur
+
+
+def _nav(root, path):
+    f = root
+    for name, i in path:
+        f = getattr(f.a, name).f if i is None else getattr(f.a, name)[i].f
+    return f
+
+
+def _tree_vs_parse(root):
+    import util
+    try:
+        return util.tree_equals_parse(root)
+    except Exception as ex:
+        return 'tree comparison raised ' + type(ex).__name__
+
+
+def run_two_step(src, edit):
+    """edit = {'op': 'replace2', 'path', 'pkind', 'field', 'code', 'final'}"""
+    from fst import FST
+    _patch()
+    del _CALLS[:]
+    item = {'src': src, 'edit': edit, 'op': 'replace2', 'field': edit['pkind'] + '.' + edit['field'], 'violations': [], 'changed': False,
+            'outcome': 'ok', 'bad_spans': []}
+    tree = ast.parse(src)
+    node = tree
+    for name, i in edit['path']:
+        node = getattr(node, name) if i is None else getattr(node, name)[i]
+    lines = src.split('\n')
+    s, e = _span(lines, node)
+    a1 = sum(len(x) + 1 for x in lines[:s[0]]) + s[1]
+    a2 = sum(len(x) + 1 for x in lines[:e[0]]) + e[1]
+    # the element's own grouping parentheses belong to it (generous: every balanced pair directly around it)
+    T = [(t.string, (t.start[0] - 1, t.start[1]), (t.end[0] - 1, t.end[1])) for t in toks(src) if t.type not in NONSIG and t.type != tokenize.COMMENT]
+    inside = [k for k, t in enumerate(T) if t[1] >= s and t[2] <= e]
+    if inside:
+        a, b = inside[0], inside[-1]
+        while a > 0 and b + 1 < len(T) and T[a - 1][0] == '(' and T[b + 1][0] == ')':
+            a -= 1
+            b += 1
+        if a != inside[0]:          # (token ends of multi-line strings after non-ASCII text are unreliable in 3.12: keep ast's)
+            s, e = T[a][1], T[b][2]
+    o1 = sum(len(x) + 1 for x in lines[:s[0]]) + s[1]
+    o2 = sum(len(x) + 1 for x in lines[:e[0]]) + e[1]
+    item['mb_before'] = not lines[s[0]][:s[1]].isascii()
+    root = FST(src, 'exec')
+    try:
+        _nav(root, edit['path']).replace(edit['code'], raw=False)
+    except Exception as ex:
+        item['outcome'] = 'raised:' + type(ex).__name__
+        return item
+    src1 = root.src
+    v = []
+
+    def outside(new, step):
+        if not (new.startswith(src[:o1]) and new.endswith(src[o2:]) and len(new) >= o1 + len(src) - o2):
+            v.append({'cls': 'outside-text-changed', 'what': f'after step {step} the text before / after the replaced expression is not '
+                      'byte-identical', 'detail': [step, new[max(0, o1 - 30):o1 + 60]]})
+            return True
+        return False
+
+    bad = outside(src1, 1)
+    if not bad and (d := _tree_vs_parse(root)):
+        v.append({'cls': 'tree!=parse', 'what': 'after the replacement the node positions / tree differ from a fresh parse of the '
+                  'source: ' + d[:300], 'detail': [1, d[:300]]})
+    if not bad:         # the second edit is addressed through the positions the first one left behind
+        try:
+            _nav(root, edit['path']).args[0].replace('zz', raw=False)
+        except Exception as ex:
+            item['outcome'] = 'raised2:' + type(ex).__name__
+            item['after'] = src1
+            return item
+        src2 = root.src
+        item['after'] = src2
+        nv = len(v)
+        if not outside(src2, 2):
+            mid = src2[o1:len(src2) - (len(src) - o2)]
+            m_, f_ = ''.join(mid.split()), ''.join(edit['final'].split())
+            # what surrounded the element inside its (generously taken) own parentheses may stay or go (parentheses, comments and
+            # continuations inside them belong to the element), nothing foreign may appear
+            rest, pool = m_.replace(f_, '', 1), iter(''.join((src[o1:a1] + src[a2:o2]).split()))
+            if f_ not in m_ or not all(ch in pool for ch in rest if ch not in '()'):
+                v.append({'cls': 'outside-text-changed', 'what': f'the second edit (args[0] of the new call := zz) produced {mid!r} instead of '
+                          f'{edit["final"]!r}', 'detail': [2, mid]})
+            elif not v and (d := _tree_vs_parse(root)):
+                v.append({'cls': 'tree!=parse', 'what': 'after the second edit the tree differs from a fresh parse: ' + d[:300],
+                          'detail': [2, d[:300]]})
+        if len(v) > nv and v[-1]['cls'] == 'outside-text-changed':
+            v.insert(0, v.pop())        # text damage outside the element is the headline
+    else:
+        item['after'] = src1
+    item['bad_spans'] = list(_CALLS)
+    item['changed'] = True
+    item['violations'] = v
+    if v:
+        item['outcome'] = 'violation'
+    return item
+
+
+def two_step_cases(arg):
+    src0, seed, per = arg
+    rng = random.Random(seed)
+    src = add_multibyte_prefix(src0, rng) if rng.random() < 0.7 else src0
+    try:
+        tree = ast.parse(src)
+        tg = expr_targets(tree)
+    except Exception:
+        return []
+    lines = src.split('\n')
+
+    def mb(t):
+        c = t[3]
+        return not lines[c.lineno - 1].encode()[:c.col_offset].isascii()
+
+    rng.shuffle(tg)
+    tg.sort(key=lambda t: not mb(t))            # targets with multi-byte text before them on the line first
+    out = []
+    for path, pkind, fld, c in tg[:per]:
+        code, final = rng.choice(STEP1)
+        edit = {'op': 'replace2', 'path': path, 'pkind': pkind, 'field': fld, 'code': code, 'final': final}
+        try:
+            out.append(run_two_step(src, edit))
+        except Exception as ex:
+            out.append({'src': src, 'edit': edit, 'op': 'replace2', 'field': pkind + '.' + fld, 'violations': [], 'changed': False,
+                        'outcome': 'harness:' + type(ex).__name__ + ':' + str(ex)[:80], 'bad_spans': []})
+    import hashlib
+    for it in out:
+        it['key'] = hashlib.blake2b((it['src'] + repr(it['edit'])).encode(), digest_size=8).hexdigest()
+        if not it['violations']:
+            it.pop('after', None)
+            it['src'] = it['src'][:300]
     return out
